@@ -50,12 +50,14 @@ ScriptTotalOK(total) ==
     IF c.ev # "call" THEN TRUE
     ELSE IF c.entry = "zhit" THEN total = ZhitTotal(c.opts, c.nwin)
     ELSE IF c.entry = "fit" THEN total = FitTotal(c.opts.nm, c.opts.nw)
+    ELSE IF c.entry = "kk-custom" THEN total = KkCustomTotal(c.opts.n)
     ELSE TRUE
 ScriptStepsOK(n) ==
     LET c == Tr[1] IN
     IF c.ev # "call" THEN TRUE
     ELSE IF c.entry = "zhit" THEN n = ZhitSteps(c.opts, c.nwin)
     ELSE IF c.entry = "fit" THEN n <= FitSteps(c.opts.nm, c.opts.nw)
+    ELSE IF c.entry = "kk-custom" THEN n <= KkStepsBound(c.opts.n)
     ELSE TRUE
 
 Call ==
@@ -70,7 +72,7 @@ Enter ==
         /\ recent' = u.recent
     /\ objs' = [objs EXCEPT ![Ev.oid] = [i |-> 0, total |-> Ev.total, n |-> Ev.n, live |-> TRUE]]
     /\ scriptOK' = (scriptOK /\ (Ev.oid = 1 => ScriptTotalOK(Ev.total)))
-    /\ UNCHANGED incs
+    /\ incs' = IF Ev.oid = 1 THEN 0 ELSE incs        \* the accounting is per top-level Progress object
 
 Inc ==
     /\ IsEvent("inc")
@@ -90,7 +92,7 @@ Exit ==
         /\ recent' = r.u.recent
     /\ objs' = [objs EXCEPT ![Ev.oid] = Dead]
     /\ incs' = IF Ev.oid = 1 THEN incs + 1 ELSE incs
-    /\ UNCHANGED scriptOK
+    /\ scriptOK' = (scriptOK /\ ((Ev.oid = 1 /\ Ev.err = "" /\ Tr[Len(Tr)].outcome = "returned") => ScriptStepsOK(incs + 1)))
 
 Msg ==
     /\ IsEvent("msg")
@@ -113,8 +115,7 @@ SetI ==
 End ==
     /\ IsEvent("end")
     /\ Ev.outcome \in AllowedOutcomes
-    /\ scriptOK' = (scriptOK /\ (Ev.outcome = "returned" => ScriptStepsOK(incs)))
-    /\ UNCHANGED <<objs, recent, incs>>
+    /\ UNCHANGED <<objs, recent, incs, scriptOK>>
 
 TraceNext == Call \/ Enter \/ Inc \/ Exit \/ Msg \/ SetI \/ End
 TraceSpec == TraceInit /\ [][TraceNext]_vars
